@@ -289,3 +289,21 @@ NOT_DECIDED.update({
  'C04': ['history-level equality with the reference decoder (ring/queue content), GetData, ExtractFileLzh, encoder-side lemma', 'tree invariant preservation for T=314 (assumed)'],
  'C03': ['ReadAllWaveHeaders, PrepareIndex, WriteArchive (D10 suspected, unexamined), CompareWaveFormats (timeout), reader side, name rules'],
 })
+
+# ---- U-ARCH (C17, C01, C05)
+ARCH_TRUST = ['XFile::PathsAreEqual as an uninterpreted deterministic relation g_match (its case and "./" insensitivity is std::filesystem behaviour, not decided)',
+              'virtual GetName(i) bound to its contract: returns the i-th name, throws iff i >= count (proved for VolFile/ClmFile::GetName where claimed)']
+G('arch.GetCount', ['C17'], 'arch', 'ArchiveFile_GetCount', reach=NOEXC)
+G('arch.VerifyIndexInBounds', ['C17', 'C05'], 'arch', 'ArchiveFile_VerifyIndexInBounds', reach=EXC2)
+G('arch.GetIndex', ['C17', 'C01'], 'arch', 'ArchiveFile_GetIndex', solver='cvc5', reach=EXC2, replace=['ArchiveFile_GetCount', 'Arch_GetName', 'XFile_PathsAreEqual'], trusted=ARCH_TRUST, timeout=600, stage2='OP2_BOUNDED=4',
+  what='throws iff no member matches, else returns the least matching index; any member count')
+G('arch.Contains', ['C17', 'C01'], 'arch', 'ArchiveFile_Contains', solver='cvc5', reach=NOEXC, replace=['ArchiveFile_GetCount', 'Arch_GetName', 'XFile_PathsAreEqual'], trusted=ARCH_TRUST, timeout=600, stage2='OP2_BOUNDED=4',
+  what='Contains(n) <=> some member matches <=> GetIndex(n) does not throw')
+G('arch.VerifySortedNoDuplicates', ['C01', 'C02', 'C03'], 'arch', 'ArchiveFile_VerifySortedContainerHasNoDuplicateNames', solver='cvc5', reach=EXC2, replace=['StringUtility_IsEqual'], timeout=600,
+  what='throws iff some adjacent pair of the name list is equal ignoring case')
+
+# ---- U-FILER (C05, C12, C13: FileReader over the assumed ifstream model)
+IFS = ['Ifs_read', 'Ifs_gcount', 'Ifs_tellg', 'Ifs_seekg', 'Ifs_seekg_end', 'Ifs_clear', 'Ifs_ok']
+IFS_TRUST = 'std::ifstream on a regular file: assumed model contracts/ifsmodel.h (failbit semantics of read past the end, tellg = -1 while failed, seekg past the end allowed)'
+for fn_, rc_ in (('ReadImplementation', EXC2), ('ReadPartial', NOEXC), ('Length', NOEXC), ('Position', NOEXC), ('Seek', NOEXC), ('SeekForward', EXC2), ('SeekBackward', EXC2)):
+    G('filer.' + fn_, ['C05', 'C12', 'C13'], 'filer', 'FileReader_' + fn_, replace=IFS + ['FileReader_Position'], reach=rc_, trusted=[IFS_TRUST], replay={'driver': 'filer_replay.cpp', 'case': fn_})
